@@ -34,7 +34,7 @@ class C12(Check):
     stubs = ['segmentation.np rebound so that np.zeros tables are object arrays holding z3 terms', 'progressbar not used (verbose=False)']
     assumptions = ['cost entries are reals in [-100,100] (costs or rewards of either sign) (symmetric matrix; only the upper triangle among the N candidates is read)',
                    'N = shape-1 candidates as the implementation defines them; N >= 2']
-    outside = ['N > 6', 'the documented meaning of the individual cost functions (minimum bounding rectangles: numpy / trigonometry)',
+    outside = ['N > 6 with every entry symbolic; N > 12', 'the documented meaning of the individual cost functions (minimum bounding rectangles: numpy / trigonometry)',
                'N = 1 (single candidate: degenerate)', 'stop detection pipelines beyond their call of optimalPartition']
     budget = {'quick': 120, 'thorough': 2400}
 
@@ -57,9 +57,18 @@ class C12(Check):
             for size in ((3, 4, 5) if tier == 'quick' else (3, 4, 5, 6)):
                 js.append(dict(kind='seg', size=size, mode=mode))
             js.append(dict(kind='simp', mode=mode))
+            # scale / configuration probes: larger candidate sets with a fixed matrix and two symbolic entries; matrices stored with a narrow numpy dtype
+            for N in ((8, 11) if tier == 'quick' else (7, 8, 9, 10, 11, 12)):
+                for variant in (0, 1):
+                    js.append(dict(kind='part', N=N, mode=mode, split=[], fixed=variant))
+            for dt in ('uint8', 'int16', 'bool', 'float32', 'int64'):
+                for N in ((5, 9) if tier == 'quick' else (3, 5, 7, 9, 12)):
+                    js.append(dict(kind='typed', N=N, mode=mode, dtype=dt))
         return js
 
     def patches(self, job):
+        if job['kind'] == 'typed':
+            return []        # every entry is a plain number of the given dtype: the real numpy runs (an object-array table would keep np.bool_ / np.uint8 scalars and their wrap-around arithmetic)
         return [(SEG, 'np', SymNumpy())]
 
     def _split_constraints(self, c, N, bits):
@@ -86,6 +95,30 @@ class C12(Check):
         goal = z3.And([mine <= o for o in others]) if mode == 0 else z3.And([mine >= o for o in others])
         ctx.prove(goal, '%s: summed segment costs are the %s over all partitions' % (label, 'minimum' if mode == 0 else 'maximum'))
 
+    @staticmethod
+    def _fixed_cost(i, j, variant):
+        import zlib
+        h = zlib.crc32(('%d,%d/%d' % (i, j, variant)).encode()) % 1024
+        return (h / 8.0 - 64.0) if variant == 0 else float(h % 7) - 2.0      # variant 1: many ties
+
+    @staticmethod
+    def _typed_matrix(N, dt, sel):
+        """(N+1) x (N+1) numpy matrix of the given dtype with small non-negative integer entries (exactly representable in every dtype used);
+        two entries are picked by the selectors sel from {low, middle, high}; returns the matrix and the exact integer costs"""
+        import zlib
+        hi = 1 if dt == 'bool' else 60
+        C = np.zeros((N + 1, N + 1), dtype=dt)
+        c = {}
+        picks = {(0, N - 1): sel[0], (1, max(2, N - 2)): sel[1]}
+        for i in range(N):
+            for j in range(i + 1, N):
+                v = zlib.crc32(('%d;%d' % (i, j)).encode()) % (hi + 1)
+                if (i, j) in picks:
+                    v = (0, hi // 2, hi)[picks[(i, j)]]
+                c[(i, j)] = int(v)
+                C[i, j] = C[j, i] = v
+        return C, c
+
     def path(self, ctx, job):
         seg = sys.modules[SEG]
         eng = ctx.eng
@@ -97,6 +130,11 @@ class C12(Check):
             C.fill(0.0)
             for i in range(N):
                 for j in range(i + 1, N):
+                    if 'fixed' in job and (i, j) not in ((0, N - 1), (1, N - 2)):
+                        v = self._fixed_cost(i, j, job['fixed'])
+                        c[(i, j)] = core.zreal(v)
+                        C[i, j] = C[j, i] = v
+                        continue
                     v = eng.real('c%d_%d' % (i, j), -100, 100)
                     c[(i, j)] = v.z
                     C[i, j] = v
@@ -114,6 +152,11 @@ class C12(Check):
             # the caller's matrix is an input: it must come back unchanged, and asking again must give the same optimum
             for i in range(N):
                 for j in range(i + 1, N):
+                    if 'fixed' in job and not core.is_sym(C[i, j]):
+                        if C[i, j] != self._fixed_cost(i, j, job['fixed']) or C[j, i] != C[i, j]:
+                            ctx.fail('optimalPartition modified the cost matrix it was given')
+                            return
+                        continue
                     if C[i, j] is not C[j, i] or zreal(C[i, j]) is not c[(i, j)] and not z3.eq(zreal(C[i, j]), c[(i, j)]):
                         ctx.fail('optimalPartition modified the cost matrix it was given')
                         return
@@ -123,6 +166,20 @@ class C12(Check):
                 ctx.fail('a second optimalPartition call on the same matrix raised %s' % type(e).__name__)
                 return
             self._assert_opt(ctx, res2, N, c, mode, 'optimalPartition (second call on the same matrix)')
+        elif job['kind'] == 'typed':
+            N, dt = job['N'], job['dtype']
+            C, c = self._typed_matrix(N, dt, [eng.choice('a', 3), eng.choice('b', 3)])
+            keep = C.copy()
+            try:
+                res = seg.optimalPartition(C, mode, verbose=False)
+            except Exception as e:
+                ctx.fail('optimalPartition on a %s matrix raised %s' % (dt, type(e).__name__))
+                return
+            ctx.observe(res=[int(x) for x in res])
+            ctx.reach()
+            self._assert_opt(ctx, res, N, {k: z3.RealVal(v) for k, v in c.items()}, mode, 'optimalPartition on a matrix stored with a narrow numpy dtype')
+            if C.dtype != keep.dtype or not (C == keep).all():
+                ctx.fail('optimalPartition modified the cost matrix it was given')
         elif job['kind'] == 'seg':
             from checks.c11 import make_track
             size = job['size']
@@ -179,12 +236,24 @@ class C12(Check):
     def concrete(self, job, inp):
         seg = sys.modules[SEG]
         mode = job['mode']
+        if job['kind'] == 'typed':
+            N, dt = job['N'], job['dtype']
+            C, c = self._typed_matrix(N, dt, [int(inp['a']), int(inp['b'])])
+            try:
+                res = [int(x) for x in seg.optimalPartition(C, mode, verbose=False)]
+            except Exception as e:
+                return dict(violation='optimalPartition on a %s matrix raised %s: %s' % (dt, type(e).__name__, e))
+            r = self._conc_opt(res, N, {k: float(v) for k, v in c.items()}, mode, 'optimalPartition on a %s matrix (%d candidates)' % (dt, N))
+            return r
         if job['kind'] == 'part':
             N = job['N']
             C = np.zeros((N + 1, N + 1))
             c = {}
             for i in range(N):
                 for j in range(i + 1, N):
+                    if 'fixed' in job and (i, j) not in ((0, N - 1), (1, N - 2)):
+                        c[(i, j)] = C[i, j] = C[j, i] = self._fixed_cost(i, j, job['fixed'])
+                        continue
                     c[(i, j)] = C[i, j] = C[j, i] = float(inp['c%d_%d' % (i, j)])
             try:
                 res = [int(x) for x in seg.optimalPartition(C, mode, verbose=False)]
